@@ -23,6 +23,7 @@ RULE = (
     "the graph) performs script[i] in {behave, miss, forget, lie-exists, fail-get}; all 5^N scripts for the first "
     "N=4 (quick) / 6 (thorough) calls, random longer scripts, both with the inherited exists() and with an own "
     "exists(); histories of 3-6 evaluations on single-dataset / chain / diamond / overload graphs and on graphs whose datasets cannot be built for some dictionaries (coalesce / switch-default fall-backs over them).  Oracle: every "
+    "validate() of the previous options is asked between two evaluations in every second history position; "
     "evaluation returns the value of a fault-free instance, never raises; body runs per dataset <= evaluations of it. "
     "distinct = sha1(graph, script, variant, history); non-trivial = at least one non-'behave' action was executed."
 )
